@@ -280,6 +280,14 @@ WORD_CRITERIA = tuple(op + o for op in OPS
     'may', 'SAT', 'inf', 'nan')
 
 
+# texts with a line break: the operand of a criterion is everything after the
+# operator
+LINE_ALPHA = ('a', 'a\nb', 'a\nc', 5)
+LINE_CRITERIA = tuple(op + o for op in OPS
+                      for o in ('a', 'a\nb', 'A\nB', 'a\n')) + (
+    'a', 'a\nb', 'a\nC')
+
+
 def run_column2(name, values, ctx, only=None):
     rec = Rec(ctx, only)
     n = len(values)
@@ -287,7 +295,8 @@ def run_column2(name, values, ctx, only=None):
     base = 'C15/%s/%s' % (name, colkey(values))
     batch = Batch(cells)
     crits = {'column-frac': FRAC_CRITERIA, 'column-digit': DIGIT_CRITERIA,
-             'column-words': WORD_CRITERIA}[name]
+             'column-words': WORD_CRITERIA,
+             'column-lines': LINE_CRITERIA}[name]
     for crit in crits:
         try:
             want = ref.countif(values, crit)
@@ -568,7 +577,8 @@ def plan(tier):
                            'hi': min(total, lo + 12)})
     for name, alpha in (('column-frac', FRAC_ALPHA),
                         ('column-digit', DIGIT_ALPHA),
-                        ('column-words', WORD_ALPHA)):
+                        ('column-words', WORD_ALPHA),
+                        ('column-lines', LINE_ALPHA)):
         for n in range(1, (4 if thorough else 3) + 1):
             total = len(alpha) ** n
             for lo in range(0, total, 40):
@@ -614,9 +624,10 @@ def run_shard(shard, ctx):
             ctx.sample({'column': list(word(ALPHA6, shard['n'],
                                             shard['hi'] - 1)),
                         'formula': '=COUNTIF(A1:A%d,">=-3")' % shard['n']})
-    elif fam in ('column-frac', 'column-digit', 'column-words'):
-        alpha = {'column-frac': FRAC_ALPHA, 'column-digit': DIGIT_ALPHA,
-                 'column-words': WORD_ALPHA}[fam]
+    elif fam in ('column-frac', 'column-digit', 'column-words',
+                 'column-lines'):
+        alpha = {'column-lines': LINE_ALPHA, 'column-frac': FRAC_ALPHA,
+                 'column-digit': DIGIT_ALPHA, 'column-words': WORD_ALPHA}[fam]
         for idx in range(shard['lo'], shard['hi']):
             run_column2(fam, word(alpha, shard['n'], idx), ctx)
         if shard['lo'] == 0:
@@ -661,7 +672,8 @@ def replay(inputs, ctx):
     only = inputs['key']
     if fam == 'column':
         run_column(tuple(inputs['values']), ctx, only)
-    elif fam in ('column-frac', 'column-digit', 'column-words'):
+    elif fam in ('column-frac', 'column-digit', 'column-words',
+                 'column-lines'):
         run_column2(fam, tuple(inputs['values']), ctx, only)
     elif fam == 'approx-mixed':
         run_approx_mixed(tuple(inputs['values']), ctx, only)
